@@ -92,6 +92,10 @@ def framework_hash():
                 rel = f.relative_to(ROOT).parts
                 if rel[:2] in (("harness", "props"), ("harness", "tools")):
                     continue
+                # proofs and property files are checked by the proof gate; the oracle is
+                # extracted from the models only (Oracle.v imports neither)
+                if rel[:3] in (("coq", "theories", "Proofs"), ("coq", "theories", "Props")):
+                    continue
                 h.update(str(f.relative_to(ROOT)).encode())
                 h.update(f.read_bytes())
     return h.hexdigest()[:16]
